@@ -4,7 +4,9 @@
 //!
 //! `prog` = one op list per thread. Ops: "acq", "rel<k>" / "rell<k>" (release the k-th oldest
 //! index this thread holds; `rell` = LockIfLastIndex), "rec<t>" (robust: recover the indices
-//! owned by thread t, default mode), "recl<t>" (LockIfLastIndex).
+//! owned by thread t, default mode), "recl<t>" (LockIfLastIndex), "obs" (observer:
+//! `borrowed_indices()`, ret v = the count - on the robust set this WRITES the generation counter),
+//! "il" (observer: `is_locked()`, ret r = "true" | "false").
 //! Events: call {t,a,i,m}, ret {t,a,r,v,idx}; end {borrowed, locked}.
 
 use crate::exec::{Case, ExecCfg, explore};
@@ -207,6 +209,17 @@ fn body(s: Arc<dyn IndexSet>, tid: usize, ops: Vec<String>, done: Arc<Vec<std::s
                     AcqRes::Locked => ("locked", 0),
                 };
                 sched::log_api(json!({"k":"ret","t":tid,"a":"acq","r":r,"v":v,"idx":[]}));
+            } else if op == "obs" {
+                sched::yield_api("obs");
+                sched::log_api(json!({"k":"call","t":tid,"a":"obs","i":0,"m":0}));
+                let b = s.borrowed();
+                assert!(b != u64::MAX, "this kind has no observer");
+                sched::log_api(json!({"k":"ret","t":tid,"a":"obs","r":"ok","v":b,"idx":[]}));
+            } else if op == "il" {
+                sched::yield_api("il");
+                sched::log_api(json!({"k":"call","t":tid,"a":"il","i":0,"m":0}));
+                let r = if s.locked() { "true" } else { "false" };
+                sched::log_api(json!({"k":"ret","t":tid,"a":"il","r":r,"v":0,"idx":[]}));
             } else if let Some(rest) = op.strip_prefix("rell").or_else(|| op.strip_prefix("rel")) {
                 let lock = op.starts_with("rell");
                 let k: usize = rest.parse().unwrap_or(0);
